@@ -497,6 +497,10 @@ func RecordSurgery(t *Tape, exp *experiment.Experiment) string {
 			if g.Champion != nil {
 				g.Solved = true
 				g.WinnerNodes, g.WinnerGenes, g.WinnerEvals = 3+t.Draw("surgery.wn", 9), 2+t.Draw("surgery.wg", 9), 10+t.Draw("surgery.we", 500)
+				if t.Chance("surgery.winnerUnfilled", 1, 3) {
+					// an evaluator that reports success without filling in the winner's size
+					g.WinnerNodes, g.WinnerGenes, g.WinnerEvals = 0, 0, 0
+				}
 				surgery += fmt.Sprintf(" mark-solved(trial %d generation #%d)", ti, gi)
 			}
 		case 4: // truncated
